@@ -87,13 +87,17 @@ Definition C04_roundtrip_ns_ok (t tref back : Z) : bool :=
   if in_window_nsb t tref && (0 <=? time_sec tref) then (t - 1 <=? back) && (back <=? t) else true.
 
 (* Oracle for the decoding direction (all 2^32 seconds fields, all 2^32 fractions), written from
-   the property text in plain integer arithmetic: the decoded time lies in the reference's
-   window, names the timestamp's seconds modulo an era, and its nanosecond is the timestamp's
-   fraction truncated to whole nanoseconds. *)
+   the property text in plain integer arithmetic and demanding no more than it: the decoded time
+   lies in the reference's window and names the timestamp's seconds modulo an era (every seconds
+   field is the image of a time in the window, which the round trip must give back); and when the
+   fraction is the image of a nanosecond value n (n = ceil(f*10^9/2^32) converts to f), the decoded
+   nanosecond is n or n - 1 (round trip: never later, at most 1 ns earlier).  Fractions that no
+   nanosecond value converts to are not constrained by the property. *)
 Definition C04_decode_ok (s f tref back : Z) : bool :=
   if (0 <=? time_sec tref) && (time_sec tref <? 1152921504606846976) then
     (- 2147483648 <=? time_sec back - time_sec tref) && (time_sec back - time_sec tref <? 2147483648)
     && ((time_sec back - ntp_epoch) mod 4294967296 =? s)
-    && (time_nsec back * 4294967296 <=? f * nanos_per_sec)
-    && (f * nanos_per_sec <? (time_nsec back + 1) * 4294967296)
+    && (let n := (f * 1000000000 + 4294967295) / 4294967296 in
+        if (n <? 1000000000) && (n * 4294967296 / 1000000000 =? f)
+        then (n - 1 <=? time_nsec back) && (time_nsec back <=? n) else true)
   else true.
